@@ -130,6 +130,8 @@ def _derive(d):
     out = {}
     with open(os.path.join(d, "mir.jsonl")) as fh:
         for line in fh:
+            if "bitflags::core::" in line:
+                line = line.replace("bitflags::core::", "core::")
             b = json.loads(line)
             calls, closures, fnptrs = [], [], []
 
